@@ -17,6 +17,8 @@ import (
 	"net/http/httptest"
 	"os"
 	"path/filepath"
+	"regexp"
+	"runtime"
 	"strconv"
 	"strings"
 	"sync"
@@ -55,6 +57,14 @@ type scenario struct {
 	Faults    []string `json:"faults"`  // outcome of the i-th POST: "200", "400", "429", "500", "503", "timeout", "reset"; afterwards 200
 	Quiesce   bool     `json:"quiesce"` // wait for everything to be acknowledged before Shutdown
 	Shutdown  bool     `json:"shutdown"`
+	// shutdown of a backed-up blocking route (after the steps): the endpoint answers every POST with PileCode
+	// ("timeout" = hangs it) from now on, one goroutine per entry of Pile dispatches one point of that series
+	// (the series of Pile are distinct), the driver waits until each of these calls has returned or is parked
+	// on the full queue of its shard, calls Shutdown, and lets the endpoint recover (the rest of Faults, then
+	// 200) once Shutdown is waiting for the workers (Recover "after") or right before the call ("with").
+	Pile     []int  `json:"pile,omitempty"`
+	PileCode string `json:"pile_code,omitempty"`
+	Recover  string `json:"recover,omitempty"`
 }
 
 const (
@@ -62,6 +72,7 @@ const (
 	quiesceDeadline = 30 * time.Second // everything accepted must be acknowledged by then (normal: a few flushMaxWait)
 	shutdownLimit   = 20 * time.Second // Shutdown must have returned by then (normal: milliseconds to a few failed attempts)
 	holdCap         = 60 * time.Second
+	harnessDeadline = 20 * time.Second // the driver's own waits for goroutine states (normal: milliseconds); missing one is a harness event, never a verdict
 )
 
 type event map[string]interface{}
@@ -85,7 +96,8 @@ type fakeGW struct {
 	next     int
 	nposts   int
 	holding  bool
-	holdLeft int // >0: number of POSTs still to hang; 0 with holding: until release
+	holdLeft int    // >0: number of POSTs still to hang; 0 with holding: until release
+	holdCode string // what a POST gets while holding ("" = "timeout": it hangs)
 	hung     int
 	acked    map[int]bool
 	names    map[string]int
@@ -120,6 +132,9 @@ func (g *fakeGW) ServeHTTP(w http.ResponseWriter, r *http.Request) {
 	var code string
 	if g.holding {
 		code = "timeout"
+		if g.holdCode != "" {
+			code = g.holdCode
+		}
 		g.hung++
 		if g.holdLeft > 0 {
 			g.holdLeft--
@@ -227,6 +242,85 @@ func writeConfFiles(dir string) (string, string) {
 	return sf, af
 }
 
+// ---- goroutine states (runtime.Stack): the only outside view of "this Dispatch call is parked on a full queue"
+// and "Shutdown has given its signal and waits for the workers"
+
+type gor struct {
+	state string // "chan send", "semacquire", "running", ...
+	stack string
+}
+
+var gorHead = regexp.MustCompile(`^goroutine (\d+) \[([^\]]*)\]:`)
+
+func curGoroutine() string {
+	buf := make([]byte, 64)
+	buf = buf[:runtime.Stack(buf, false)]
+	f := strings.Fields(string(buf)) // "goroutine N [running]:"
+	if len(f) >= 2 && f[0] == "goroutine" {
+		return f[1]
+	}
+	return "?"
+}
+
+// goroutines created by goroutine `creator` (Go >= 1.21 prints "created by F in goroutine N")
+func createdBy(creator string) []gor {
+	buf := make([]byte, 1<<18)
+	for {
+		n := runtime.Stack(buf, true)
+		if n < len(buf) {
+			buf = buf[:n]
+			break
+		}
+		buf = make([]byte, 2*len(buf))
+	}
+	var out []gor
+	suffix := " in goroutine " + creator
+	for _, blk := range strings.Split(string(buf), "\n\n") {
+		m := gorHead.FindStringSubmatch(blk)
+		if m == nil {
+			continue
+		}
+		i := strings.LastIndex(blk, "created by ")
+		if i < 0 {
+			continue
+		}
+		line := blk[i:]
+		if j := strings.IndexByte(line, '\n'); j >= 0 {
+			line = line[:j]
+		}
+		if !strings.HasSuffix(strings.TrimSpace(line), suffix) {
+			continue
+		}
+		st := m[2]
+		if j := strings.IndexByte(st, ','); j >= 0 {
+			st = st[:j]
+		}
+		out = append(out, gor{state: st, stack: blk})
+	}
+	return out
+}
+
+// Dispatch calls of this scenario that are parked in a channel send
+func parkedDispatches(creator string) int {
+	n := 0
+	for _, g := range createdBy(creator) {
+		if g.state == "chan send" && strings.Contains(g.stack, "(*GrafanaNet).Dispatch(") {
+			n++
+		}
+	}
+	return n
+}
+
+// the Shutdown call of this scenario is blocked (it waits for the workers, or for whatever it waits)
+func shutdownWaiting(creator string) bool {
+	for _, g := range createdBy(creator) {
+		if strings.Contains(g.stack, "(*GrafanaNet).Shutdown(") && g.state != "running" && g.state != "runnable" {
+			return true
+		}
+	}
+	return false
+}
+
 func runScenario(t *testing.T, sc scenario, sf, af string, progress *hx.Log) []event {
 	rec := &recorder{}
 	rec.add(event{"ev": "scen", "k": sc.K, "conc": sc.Conc, "blocking": sc.Blocking, "nseries": len(sc.Names)})
@@ -305,6 +399,7 @@ func runScenario(t *testing.T, sc scenario, sf, af string, progress *hx.Log) []e
 		gw.mu.Lock()
 		gw.holding = false
 		gw.holdLeft = 0
+		gw.holdCode = ""
 		gw.mu.Unlock()
 	}
 	// watchdog: a non-blocking route whose Dispatch does not return is reported and the server released,
@@ -375,6 +470,7 @@ func runScenario(t *testing.T, sc scenario, sf, af string, progress *hx.Log) []e
 					gw.mu.Lock()
 					gw.holding = true
 					gw.holdLeft = st.N
+					gw.holdCode = ""
 					gw.mu.Unlock()
 				case "release":
 					release()
@@ -392,9 +488,92 @@ func runScenario(t *testing.T, sc scenario, sf, af string, progress *hx.Log) []e
 		rec.add(event{"ev": "quiesce", "ok": quiesce()})
 	}
 	returned := false
-	if sc.Shutdown {
+	if len(sc.Pile) > 0 {
+		// shutdown of a backed-up blocking route
+		me := curGoroutine()
+		K := int64(len(sc.Pile))
+		gw.mu.Lock()
+		gw.holding, gw.holdLeft, gw.holdCode = true, 0, sc.PileCode
+		gw.mu.Unlock()
+		var pileDone int64
+		for _, s := range sc.Pile {
+			id++
+			go func(s, pid int) {
+				line := []byte(fmt.Sprintf("%s %d %d", sc.Names[s], pid, tsBase+pid))
+				rec.add(event{"ev": "disp", "s": s, "id": pid})
+				rt.Dispatch(line)
+				atomic.AddInt64(&ndisp, 1)
+				// several calls at a time: the counter cannot be attributed to one of them
+				rec.add(event{"ev": "ret", "id": pid, "st": "unk", "slow": false})
+				atomic.AddInt64(&pileDone, 1)
+			}(s, id)
+		}
+		// every call has returned or is parked on its full queue; returns the number parked, -1: not reached
+		settle := func() int {
+			deadline := time.Now().Add(harnessDeadline)
+			for {
+				d := atomic.LoadInt64(&pileDone)
+				p := parkedDispatches(me)
+				if d == atomic.LoadInt64(&pileDone) && d+int64(p) == K {
+					return p
+				}
+				if time.Now().After(deadline) {
+					return -1
+				}
+				time.Sleep(time.Millisecond)
+			}
+		}
+		parked := settle()
+		if parked < 0 {
+			rec.add(event{"ev": "harness", "what": "the dispatching goroutines did not all return or park in a channel send"})
+		}
+		progress.Emit(event{"k": sc.K, "at": "piled", "parked": parked})
+		if sc.Recover == "with" {
+			release()
+		}
 		done := make(chan struct{})
-		rec.add(event{"ev": "sdcall"})
+		rec.add(event{"ev": "sdcall", "parked": parked})
+		go func() {
+			rt.Shutdown()
+			rec.add(event{"ev": "sdret"})
+			close(done)
+		}()
+		if sc.Recover != "with" {
+			deadline := time.Now().Add(harnessDeadline)
+		waitSd:
+			for !shutdownWaiting(me) {
+				select {
+				case <-done:
+					break waitSd
+				default:
+				}
+				if time.Now().After(deadline) {
+					rec.add(event{"ev": "harness", "what": "the Shutdown call neither blocked nor returned"})
+					break
+				}
+				time.Sleep(time.Millisecond)
+			}
+			release()
+		}
+		select {
+		case <-done:
+			returned = true
+		case <-time.After(shutdownLimit):
+			rec.add(event{"ev": "sdtimeout", "limit_s": int(shutdownLimit / time.Second)})
+		}
+		if !returned {
+			rec.add(event{"ev": "quiesce", "ok": quiesce()})
+		}
+		// calls that are still parked now were never accepted (and are not judged); everything else has returned
+		left := settle()
+		if left < 0 {
+			rec.add(event{"ev": "harness", "what": "after Shutdown: the dispatching goroutines did not all return or stay parked"})
+		} else {
+			rec.add(event{"ev": "blocked", "n": left})
+		}
+	} else if sc.Shutdown {
+		done := make(chan struct{})
+		rec.add(event{"ev": "sdcall", "parked": 0})
 		go func() {
 			rt.Shutdown()
 			// recorded by the returning goroutine itself: nothing the route does afterwards can precede it
@@ -408,7 +587,7 @@ func runScenario(t *testing.T, sc scenario, sf, af string, progress *hx.Log) []e
 			rec.add(event{"ev": "sdtimeout", "limit_s": int(shutdownLimit / time.Second)})
 		}
 	}
-	if !returned {
+	if !returned && len(sc.Pile) == 0 {
 		// no (completed) shutdown: let the route finish on its own so that the remaining clauses can be judged
 		rec.add(event{"ev": "quiesce", "ok": quiesce()})
 	}
@@ -418,7 +597,7 @@ func runScenario(t *testing.T, sc scenario, sf, af string, progress *hx.Log) []e
 	rec.add(event{"ev": "final", "drops": int(drops.Count() - drops0), "errs": int(errs.Count() - errs0),
 		"posts": np, "hung": nh})
 	progress.Emit(event{"k": sc.K, "at": "done"})
-	if !sc.Shutdown {
+	if !sc.Shutdown && len(sc.Pile) == 0 {
 		// clean-up only (not recorded): stop the workers of a route the scenario left running
 		go rt.Shutdown()
 	}
